@@ -929,6 +929,41 @@ func (e *Enc) encPanic(ins *ssa.Panic, st *State) {
 	}
 }
 
+// goalOf evaluates a clause that becomes an obligation. A clause naming a local that no longer exists
+// in the function is stale: its goal is `false` with the reason attached to the clause text, so that
+// only the groups of that clause fail and the rest of the contract is still checked.
+func (e *Enc) goalOf(ctx *evalCtx, c *Clause) (goal string, src string) {
+	defer func() {
+		if r := recover(); r != nil {
+			if ee, isE := r.(encErr); isE && strings.Contains(string(ee), "unresolved name") {
+				msg := string(ee)
+				if i := strings.Index(msg, " ["); i >= 0 {
+					msg = msg[:i]
+				}
+				e.note(fmt.Sprintf("stale clause %q: %s", c.Name, msg))
+				goal, src = "false", c.Src+"   [STALE CLAUSE: "+msg+" - the code no longer has what this clause talks about]"
+				return
+			}
+			panic(r)
+		}
+	}()
+	return ctx.evalBool(c), c.Src
+}
+
+// factOf evaluates a clause that becomes an assumption; a stale clause assumes nothing.
+func (e *Enc) factOf(ctx *evalCtx, c *Clause) (fact string) {
+	defer func() {
+		if r := recover(); r != nil {
+			if ee, isE := r.(encErr); isE && strings.Contains(string(ee), "unresolved name") {
+				fact = "true"
+				return
+			}
+			panic(r)
+		}
+	}()
+	return ctx.evalBool(c)
+}
+
 // tryEvalBool evaluates a clause; an unresolved local name makes the clause inapplicable (ok=false).
 func (e *Enc) tryEvalBool(ctx *evalCtx, c *Clause) (goal string, ok bool) {
 	defer func() {
